@@ -71,8 +71,9 @@ PLAN = {
         "assumptions": ["virtual clock: an accept timeout advances time by exactly the requested timeout", "Listener::new binds a real socket path per execution so the unlink clause is observed on the real file system"],
     },
     "C07": {
+        "pkg": ["vh", "vsy"],
         "level": "model_checking",
-        "parts": [part("mc_client", "c07", q=2, t=16), part("mc_client", "c07t", q=16, t=16, tq=200, tt=2400), part("mc_client", "c05", q=1, t=1)],
+        "parts": [part("mc_client", "c07", q=2, t=16), part("mc_client", "c07t", q=16, t=16, tq=200, tt=2400), part("mc_client", "c05", q=1, t=1), part("mc_sync", "c07s", q=8, t=16, tq=200, tt=2400)],
         "assumptions": ["the peer answers requests in arrival order; client threads park before every connection-lock acquisition and every read"],
     },
     "C10": {
